@@ -129,8 +129,9 @@ func verifC12Frame(tag string, p *VP9Payloader, mtu uint16, id uint16, fr verifV
 
 func VerifC12Payloader() {
 	flex := verifCase("flexible", 0, 1) == 1
-	id := verifU16("id") & 0x7FFF
-	p := &VP9Payloader{FlexibleMode: flex, InitialPictureIDFn: func() uint16 { return id }}
+	rawID := verifU16("id") // the user-supplied start value may have bit 15 set; only 15 bits are used
+	id := rawID & 0x7FFF
+	p := &VP9Payloader{FlexibleMode: flex, InitialPictureIDFn: func() uint16 { return rawID }}
 	mtu := verifU16("mtu")
 	verifAssume(mtu >= 12) // room for the 11-byte descriptor of a key frame's first packet plus one byte
 	fr := verifVP9Header()
